@@ -18,6 +18,14 @@ package main
 // .git/git-bug/lock, the temporary lock files .git/git-bug/lock.<pid> present, whether anything else below .git
 // changed during the step (looked at while a holder lives), and which long-lived processes are still running.
 // Process numbers are spawn order.
+// Users: every step names the account its process runs as (`u`: 0 = the harness's own user, 1 = uid 65534). When the
+// harness is root, schedules exist in which the holder and the other attempts belong to DIFFERENT users, both ways
+// round, on a repository directory both may write: for the unprivileged one kill(holder, 0) answers EPERM, which
+// still means "alive". The observations are the same as for one user. When the harness is not root all processes
+// run as the harness's user and the case is tagged `users:not-root-all-one-user`.
+// A command (or a long-lived one) that neither ends nor serves within its time limit is normally cut off and the
+// case ends there; but if meanwhile the lock file stopped naming the live holder, the step is recorded (killed,
+// message class MHung): it took the lock of a live process and sits behind the holder's search index.
 
 import (
 	"bufio"
@@ -49,6 +57,9 @@ type c19Step struct {
 	How     string `json:"how,omitempty"`
 	DelayUs int    `json:"delay_us,omitempty"`
 	N       int    `json:"n,omitempty"`
+	// the user the process(es) started by this step run as: 0 = the user of the harness, 1 = another, unprivileged
+	// account (uid c19OtherUID); for burst a bit mask over the members. Only honoured when the harness is root.
+	U int `json:"u,omitempty"`
 }
 type c19Input struct {
 	Steps []c19Step `json:"steps"`
@@ -227,11 +238,108 @@ func c19GenCase(r *Rand, tier string) c19Input {
 	return in
 }
 
+// Users for a generated schedule. mode 0: whoever opens while nobody holds (the first command, a hold or a burst
+// with no live holder) is the harness's user and every attempt made next to a live holder is the other account;
+// mode 1: the reverse (the holder is unprivileged, the attempts are root's); mode 2: every step draws its user.
+// `live` follows the generator's own idea of "a holder is alive" (an approximation: the observations decide).
+func c19AssignUsers(r *Rand, in *c19Input, mode int) {
+	holder := mode & 1
+	live := false
+	for i := range in.Steps {
+		s := &in.Steps[i]
+		if mode == 2 {
+			s.U = r.Intn(2)
+			if s.Op == "burst" {
+				s.U = r.Intn(8)
+			}
+			continue
+		}
+		switch s.Op {
+		case "hold":
+			if live {
+				s.U = 1 - holder
+			} else {
+				s.U = holder
+				live = true
+			}
+		case "burst":
+			if live {
+				s.U = 7 * (1 - holder)
+			} else {
+				// the members race for a free (or stale) lock: one of each at least
+				s.U = []int{1, 2, 5, 6}[r.Intn(4)]
+				live = true
+			}
+		case "end":
+			live = false
+		case "usernew", "cmd", "killat":
+			if live || i > 0 && r.Chance(1, 2) {
+				s.U = 1 - holder // (with nobody alive: the stale lock, or the cache, of the other user's process)
+			} else {
+				s.U = holder
+			}
+		}
+	}
+}
+
+// a holder of one user, attempts of every kind by the other one, the holder dies leaving its lock, the other one opens
+func c19GenCross(r *Rand, holder int) c19Input {
+	var in c19Input
+	identity := r.Chance(1, 2)
+	other := 1 - holder
+	if identity {
+		in.Steps = append(in.Steps, c19Step{Op: "usernew", U: r.Intn(2)})
+	} else {
+		in.Steps = append(in.Steps, c19Step{Op: "cmd", Kind: "ls", U: r.Intn(2)})
+	}
+	kind := "webui"
+	if identity && r.Chance(1, 2) {
+		kind = "edit"
+	}
+	in.Steps = append(in.Steps, c19Step{Op: "hold", Kind: kind, U: holder})
+	asked := kind == "webui" && r.Chance(1, 4)
+	if asked {
+		in.Steps = append(in.Steps, c19Step{Op: "stall"}, c19Step{Op: "end", How: []string{"int", "term"}[r.Intn(2)]})
+	}
+	for k := r.Range(1, 3); k > 0; k-- {
+		var s c19Step
+		switch y := r.Intn(10); {
+		case y < 6:
+			s = c19GenCmd(r, identity)
+		case y < 8:
+			s = c19Step{Op: "hold", Kind: []string{"webui", kind}[r.Intn(2)]}
+		case y < 9:
+			s = c19GenKillAt(r, true)
+		default:
+			s = c19Step{Op: "burst", N: 2, U: 3 * other}
+		}
+		if s.Op != "burst" {
+			s.U = other
+		}
+		in.Steps = append(in.Steps, s)
+	}
+	hows := []string{"kill", "kill", "kill", "int", "term", "finok", "finerr", "kill"}
+	in.Steps = append(in.Steps, c19Step{Op: "end", How: hows[r.Intn(len(hows))]})
+	if asked {
+		in.Steps = append(in.Steps, c19Step{Op: "end", How: "kill"}) // (no effect if the first one let the request end)
+	}
+	for k := r.Range(1, 2); k > 0; k-- {
+		s := c19GenCmd(r, identity)
+		if r.Chance(1, 3) {
+			s = c19Step{Op: "hold", Kind: "webui"}
+		}
+		s.U = other
+		in.Steps = append(in.Steps, s)
+	}
+	return in
+}
+
 func (c19Driver) Gen(r *Rand, tier string) []json.RawMessage {
 	n := 420
 	if tier == "thorough" {
 		n = 6300
 	}
+	nx := n / 7 // schedules with two users, on top
 	var res []json.RawMessage
 	// fixed seeds: the scenarios the property names, always present
 	fixed := []c19Input{
@@ -252,11 +360,34 @@ func (c19Driver) Gen(r *Rand, tier string) []json.RawMessage {
 			{Op: "hold", Kind: "edit"}, {Op: "cmd", Kind: "webui-busy"}, {Op: "end", How: "int"}, {Op: "cmd", Kind: "ls"}}},
 	}
 	// (the request that never ends — the shutdown gives up after 30 s, `end giveup` — is run from corpus/C19 only: 35 s a case)
+	// two users on one repository: the holder is root's and the others are an unprivileged account's, who is refused
+	// (kill(holder, 0) = EPERM: alive), then cleans the dead holder's lock; the reverse; a web UI asked to stop
+	fixed = append(fixed,
+		c19Input{Steps: []c19Step{{Op: "cmd", Kind: "ls"}, {Op: "hold", Kind: "webui"}, {Op: "cmd", Kind: "ls", U: 1}, {Op: "cmd", Kind: "new", U: 1},
+			{Op: "hold", Kind: "webui", U: 1}, {Op: "end", How: "kill"}, {Op: "cmd", Kind: "ls", U: 1}, {Op: "cmd", Kind: "ls"}}},
+		c19Input{Steps: []c19Step{{Op: "usernew", U: 1}, {Op: "hold", Kind: "edit", U: 1}, {Op: "cmd", Kind: "new"}, {Op: "cmd", Kind: "ls"},
+			{Op: "end", How: "kill"}, {Op: "cmd", Kind: "new"}, {Op: "cmd", Kind: "ls", U: 1}}},
+		c19Input{Steps: []c19Step{{Op: "usernew"}, {Op: "hold", Kind: "edit"}, {Op: "cmd", Kind: "users", U: 1}, {Op: "hold", Kind: "edit", U: 1},
+			{Op: "end", How: "finok"}, {Op: "cmd", Kind: "new", U: 1}}},
+		c19Input{Steps: []c19Step{{Op: "cmd", Kind: "ls", U: 1}, {Op: "hold", Kind: "webui"}, {Op: "stall"}, {Op: "end", How: "term"}, {Op: "cmd", Kind: "ls", U: 1},
+			{Op: "hold", Kind: "webui", U: 1}, {Op: "end", How: "int"}, {Op: "cmd", Kind: "ls", U: 1}}},
+	)
 	for _, f := range fixed {
 		res = append(res, mustJSON(f))
 	}
 	for i := 0; i < n; i++ {
 		res = append(res, mustJSON(c19GenCase(r.Fork(), tier)))
+	}
+	for i := 0; i < nx; i++ {
+		rr := r.Fork()
+		var in c19Input
+		if i%2 == 0 {
+			in = c19GenCross(rr, (i/2)%2)
+		} else {
+			in = c19GenCase(rr, tier)
+			c19AssignUsers(rr, &in, (i/2)%3)
+		}
+		res = append(res, mustJSON(in))
 	}
 	return res
 }
@@ -281,7 +412,12 @@ type c19Proc struct {
 	done     chan struct{}
 	sig      bool // the harness has sent this process a signal
 	timedOut bool // it neither served nor exited within the time limit
+	robbed   bool // ... and by then the lock file no longer named the live holder
+	user     int  // 0 = the harness's user, 1 = the other account (uid c19OtherUID)
 }
+
+// the second account: "nobody". Not root, not the harness's user: it may not signal the harness's processes.
+const c19OtherUID = 65534
 
 type c19Env struct {
 	bin, dir, repo, home string
@@ -293,6 +429,9 @@ type c19Env struct {
 	askExpired           bool   // something was observed later than 25 s after a webui was asked to stop: its shutdown gives up after 30 s
 	nextPort, nextID     int
 	slowest              time.Duration // longest start-up (spawn to serving / exit) seen so far in this case
+	twoUsers             bool          // steps with u = 1 really run as uid c19OtherUID (the harness is root and the scenario can be built)
+	curUser              int           // the user of the processes spawned from now on
+	home2, binOther      string        // the other account's HOME; the git-bug binary at a place it can execute
 	pidReuse             string        // set when a pid of a reaped process was seen alive again (assumption violated)
 }
 
@@ -351,6 +490,144 @@ func (e *c19Env) freePort() int {
 	panic("no free port")
 }
 
+// ---- two users on one repository
+
+// may a user who is neither the owner nor in the group reach (and execute / read) this path?
+func c19OpenToOthers(path string) bool {
+	for p := path; ; p = filepath.Dir(p) {
+		st, err := os.Stat(p)
+		if err != nil {
+			return false
+		}
+		need := fs.FileMode(0o001)
+		if p == path && !st.IsDir() {
+			need = 0o005
+		}
+		if st.Mode().Perm()&need != need {
+			return false
+		}
+		if p == filepath.Dir(p) {
+			return true
+		}
+	}
+}
+
+// The repository is shared: everything below the case directory is made readable and writable for everybody (the
+// processes of either user create files and directories with their own umask). Done before every step that starts
+// a process; modes are not part of any observation.
+func (e *c19Env) openUp() {
+	if !e.twoUsers {
+		return
+	}
+	_ = filepath.WalkDir(e.dir, func(path string, d fs.DirEntry, err error) error {
+		if err != nil {
+			return nil
+		}
+		if d.IsDir() {
+			_ = os.Chmod(path, 0o777)
+			return nil
+		}
+		if info, err := d.Info(); err == nil && info.Mode().IsRegular() && info.Mode().Perm()&0o666 != 0o666 {
+			_ = os.Chmod(path, info.Mode().Perm()|0o666)
+		}
+		return nil
+	})
+}
+
+// Sets the scene for two users; returns "" or the reason why it cannot be built (then every process runs as the
+// harness's user). The other account must be able to reach the case directory and to execute the binary, and
+// must NOT be allowed to signal a process of the harness's user (that is the point: kill(pid, 0) = EPERM).
+func (e *c19Env) setupTwoUsers() string {
+	if os.Geteuid() != 0 {
+		return "not-root-all-one-user"
+	}
+	if !c19OpenToOthers(filepath.Dir(e.dir)) {
+		return "no-shared-directory"
+	}
+	e.home2 = filepath.Join(e.dir, "home2")
+	_ = os.MkdirAll(e.home2, 0o777)
+	e.binOther = e.bin
+	if !c19OpenToOthers(e.bin) {
+		e.binOther = filepath.Join(e.dir, "git-bug")
+		src, err := os.Open(e.bin)
+		if err != nil {
+			return "binary-unreadable"
+		}
+		dst, err := os.OpenFile(e.binOther, os.O_CREATE|os.O_WRONLY, 0o755)
+		if err == nil {
+			_, err = io.Copy(dst, src)
+			dst.Close()
+		}
+		src.Close()
+		if err != nil {
+			return "binary-copy-failed"
+		}
+	}
+	e.twoUsers = true
+	e.openUp()
+	probe := exec.Command("/bin/sh", "-c", fmt.Sprintf("kill -0 %d", os.Getpid()))
+	probe.Dir = e.repo
+	probe.SysProcAttr = &syscall.SysProcAttr{Credential: &syscall.Credential{Uid: c19OtherUID, Gid: c19OtherUID}}
+	err := probe.Run()
+	if err == nil {
+		e.twoUsers = false
+		return "other-user-may-signal"
+	}
+	if _, ok := err.(*exec.ExitError); !ok {
+		e.twoUsers = false
+		return "setuid-unavailable" // (the process could not be started under the other account)
+	}
+	return ""
+}
+
+// the live holder, if there is exactly one and the lock file names it
+func (e *c19Env) guarded() *c19Proc {
+	e.aliveReady()
+	if len(e.ready) != 1 {
+		return nil
+	}
+	h := e.ready[0]
+	if lk, _ := e.readLock(); lk != fmt.Sprintf("(LkPid %d)", h.id) {
+		return nil
+	}
+	return h
+}
+
+// the lock file does not name h any more, and h is alive (looked at after the file was read)
+func (e *c19Env) robbed(h *c19Proc) bool {
+	if h == nil || h.exited() {
+		return false
+	}
+	lk, _ := e.readLock()
+	return lk != fmt.Sprintf("(LkPid %d)", h.id) && !h.exited()
+}
+
+// Waits for a command to end. With a live holder h the lock file is watched meanwhile: once it stopped naming h the
+// command is given a few more seconds, not the whole limit (it has passed the lock and, as a rule, sits behind
+// the holder's search index for ever). robbed: it did not end and the live holder's lock is gone or replaced.
+func (e *c19Env) waitWatching(p, h *c19Proc, limit time.Duration) (exited, robbed bool) {
+	if h == nil {
+		return p.waitExit(limit), false
+	}
+	t0 := time.Now()
+	var since time.Time
+	for {
+		if p.waitExit(25 * time.Millisecond) {
+			return true, false
+		}
+		if time.Since(t0) > limit {
+			return false, e.robbed(h)
+		}
+		if since.IsZero() {
+			if e.robbed(h) {
+				since = time.Now()
+			}
+		} else if time.Since(since) > 4*time.Second {
+			return false, e.robbed(h)
+		}
+	}
+}
+
 func (e *c19Env) spawn(fam, kind string, long bool, args []string, extraEnv []string) *c19Proc {
 	e.nextID++
 	id := e.nextID
@@ -369,10 +646,16 @@ func (e *c19Env) spawn(fam, kind string, long bool, args []string, extraEnv []st
 			panic(err)
 		}
 	}
-	cmd := exec.Command(e.bin, args...)
+	p.user = 0
+	bin, home := e.bin, e.home
+	if e.twoUsers && e.curUser == 1 {
+		p.user = 1
+		bin, home = e.binOther, e.home2
+	}
+	cmd := exec.Command(bin, args...)
 	cmd.Dir = e.repo
 	cmd.Env = append([]string{
-		"PATH=" + os.Getenv("PATH"), "HOME=" + e.home, "GIT_CONFIG_NOSYSTEM=1", "LANG=C",
+		"PATH=" + os.Getenv("PATH"), "HOME=" + home, "GIT_CONFIG_NOSYSTEM=1", "LANG=C",
 		// the keyring library probes the D-Bus session bus at start-up and would auto-launch (and leak) a dbus-daemon
 		"DBUS_SESSION_BUS_ADDRESS=unix:path=/nonexistent/verif-c19-bus",
 		"GIT_EDITOR=" + filepath.Join(e.dir, "editor.sh"), "C19_MARK=" + p.mark, "C19_GO=" + p.gofile,
@@ -384,6 +667,9 @@ func (e *c19Env) spawn(fam, kind string, long bool, args []string, extraEnv []st
 	}
 	cmd.Stderr = errf
 	cmd.SysProcAttr = &syscall.SysProcAttr{Setpgid: true, Pdeathsig: syscall.SIGKILL}
+	if p.user == 1 {
+		cmd.SysProcAttr.Credential = &syscall.Credential{Uid: c19OtherUID, Gid: c19OtherUID}
+	}
 	if err := c19Start(cmd); err != nil {
 		panic(err)
 	}
@@ -604,8 +890,9 @@ func listening(port int) bool {
 	return true
 }
 
-// waits until the long-lived process serves (true) or has exited (false)
-func (e *c19Env) waitReady(p *c19Proc) bool {
+// waits until the long-lived process serves (true) or has exited (false); h: the live holder the lock file named
+// when the process was started (nil if none), see waitWatching
+func (e *c19Env) waitReady(p, h *c19Proc) bool {
 	t0 := time.Now()
 	defer func() {
 		if d := time.Since(t0); d > e.slowest {
@@ -613,9 +900,20 @@ func (e *c19Env) waitReady(p *c19Proc) bool {
 		}
 	}()
 	deadline := time.Now().Add(25 * time.Second)
+	var since, looked time.Time
 	for time.Now().Before(deadline) {
 		if p.exited() {
 			return false
+		}
+		if h != nil && time.Since(looked) > 50*time.Millisecond {
+			looked = time.Now()
+			if since.IsZero() {
+				if e.robbed(h) {
+					since = time.Now()
+				}
+			} else if time.Since(since) > 4*time.Second {
+				break
+			}
 		}
 		if p.kind == "webui" {
 			if listening(p.port) {
@@ -629,6 +927,7 @@ func (e *c19Env) waitReady(p *c19Proc) bool {
 		}
 		time.Sleep(4 * time.Millisecond)
 	}
+	p.robbed = e.robbed(h)
 	p.destroy()
 	p.timedOut = true
 	return false
@@ -762,7 +1061,17 @@ func (c19Driver) Run(raw json.RawMessage) (res Case) {
 	if _, err := os.Stat(bin); err != nil {
 		return Case{Skip: "git-bug binary missing: " + err.Error()}
 	}
-	dir, err := os.MkdirTemp("", "verif-c19-")
+	wantTwo := false
+	for _, s := range in.Steps {
+		if s.U != 0 {
+			wantTwo = true
+		}
+	}
+	tmpRoot := ""
+	if wantTwo && os.Geteuid() == 0 && !c19OpenToOthers(os.TempDir()) && c19OpenToOthers("/tmp") {
+		tmpRoot = "/tmp" // (a place the other account can reach)
+	}
+	dir, err := os.MkdirTemp(tmpRoot, "verif-c19-")
 	if err != nil {
 		panic(err)
 	}
@@ -792,6 +1101,15 @@ func (c19Driver) Run(raw json.RawMessage) (res Case) {
 	tag := func(t string) { tagset[t] = true }
 	nontrivial := false
 	sawLive, sawStale := false, false
+	if wantTwo {
+		if why := e.setupTwoUsers(); why != "" {
+			tag("users:" + why)
+		} else {
+			tag("users:two")
+		}
+	} else {
+		tag("users:one")
+	}
 
 	record := func(op, term, detail string, procs ...*c19Proc) {
 		lk, lkText := e.readLock()
@@ -834,19 +1152,52 @@ func (c19Driver) Run(raw json.RawMessage) (res Case) {
 			if p.exited() {
 				st = p.exitClass()
 			}
-			o.Procs = append(o.Procs, fmt.Sprintf("#%d pid=%d %s %s: %s %q", p.id, p.pid, p.fam, p.kind, st, s))
+			who := ""
+			if e.twoUsers {
+				who = fmt.Sprintf(" uid=%d", []int{os.Geteuid(), c19OtherUID}[p.user])
+			}
+			o.Procs = append(o.Procs, fmt.Sprintf("#%d pid=%d%s %s %s: %s %q", p.id, p.pid, who, p.fam, p.kind, st, s))
 		}
 		obs = append(obs, o)
 	}
 	// what a correct implementation faces at this step (for the non-triviality rule and the histogram)
-	situation := func() {
+	// users: the account(s) of the process(es) about to be started; returns the live holder the lock file names, if
+	// there is exactly one (its lock is watched while the step runs)
+	situation := func(users ...int) *c19Proc {
+		e.openUp()
 		lk, _ := e.readLock()
 		if len(e.aliveReady()) > 0 {
 			sawLive = true
 			e.before = e.snapshot()
+			for _, h := range e.ready {
+				for _, u := range users {
+					if e.twoUsers && u != h.user {
+						tag("cross:attempt-next-to-live-holder-of-other-user")
+						if u == 1 {
+							tag("cross:holder-not-signalable-by-opener(EPERM)")
+						}
+					}
+				}
+			}
 		} else if strings.HasPrefix(lk, "(LkPid") {
 			sawStale = true
+			var id int
+			_, _ = fmt.Sscanf(lk, "(LkPid %d)", &id)
+			if q := e.procByID(id); q != nil && e.twoUsers {
+				for _, u := range users {
+					if u != q.user {
+						tag("cross:open-on-stale-lock-of-other-user")
+					}
+				}
+			}
 		}
+		return e.guarded()
+	}
+	userOf := func(u int) int {
+		if e.twoUsers {
+			return u & 1
+		}
+		return 0
 	}
 
 	// A command that does not come to an end within its time limit is killed and the case ends there, the
@@ -896,14 +1247,20 @@ steps:
 			if kind == "webui-noid" && e.identity {
 				continue
 			}
-			situation()
+			e.curUser = userOf(s.U)
+			h := situation(e.curUser)
 			args, fam, path, busy := e.shortCmd(kind)
 			t0 := time.Now()
 			p := e.spawn(fam, kind, false, args, nil)
-			if !p.waitExit(20 * time.Second) {
+			if done, robbed := e.waitWatching(p, h, 20*time.Second); !done {
 				p.destroy()
 				if busy != nil {
 					busy.Close()
+				}
+				if robbed {
+					// it does not end, and the lock file has stopped naming the live holder: that much is on record
+					record("cmd "+kind, fmt.Sprintf("KCmd %d %s %s XSig MHung", p.id, fam, path), strings.Join(args, " ")+" (did not end: killed)", p)
+					tag("hung-having-taken-the-lock-of-a-live-holder")
 				}
 				tag("truncated:cmd-" + kind)
 				break steps
@@ -935,10 +1292,15 @@ steps:
 			if e.broken || (s.Kind == "edit" && !e.identity) {
 				continue
 			}
-			situation()
+			e.curUser = userOf(s.U)
+			h := situation(e.curUser)
 			p := e.startLong(s.Kind)
-			rdy := e.waitReady(p)
+			rdy := e.waitReady(p, h)
 			if p.timedOut {
+				if p.robbed {
+					record("hold "+s.Kind, fmt.Sprintf("KHold %d %s false XSig MHung", p.id, p.fam), strings.Join(p.cmd.Args[1:], " ")+" (neither served nor ended: killed)", p)
+					tag("hung-having-taken-the-lock-of-a-live-holder")
+				}
 				tag("truncated:hold-" + s.Kind)
 				break steps
 			}
@@ -1087,7 +1449,8 @@ steps:
 			tag("stall")
 
 		case "killat":
-			situation()
+			e.curUser = userOf(s.U)
+			situation(e.curUser)
 			var p *c19Proc
 			path := "Signalled"
 			if s.Kind == "webui" {
@@ -1133,7 +1496,6 @@ steps:
 			if e.broken {
 				continue
 			}
-			situation()
 			n := s.N
 			if n < 2 {
 				n = 2
@@ -1141,8 +1503,14 @@ steps:
 			if n > 3 {
 				n = 3
 			}
+			var us []int
+			for i := 0; i < n; i++ {
+				us = append(us, userOf(s.U>>i))
+			}
+			situation(us...)
 			var ps []*c19Proc
 			for i := 0; i < n; i++ {
+				e.curUser = us[i]
 				ps = append(ps, e.startLong("webui"))
 			}
 			// Wait until every member serves or has exited. A member that does neither while another one serves has
@@ -1268,6 +1636,13 @@ steps:
 	}
 	sort.Strings(tags)
 	tags = append(tags, fmt.Sprintf("n:steps=%d", len(terms)))
-	term := "mkLcase " + coqList(terms)
+	// the processes that ran as the other account
+	var others []int
+	for _, p := range e.procs {
+		if p.user == 1 {
+			others = append(others, p.id)
+		}
+	}
+	term := "mkLcase " + coqNats(others) + " " + coqList(terms)
 	return Case{Coq: term, Obs: obs, Tags: tags, NonTrivial: nontrivial, Key: term}
 }
